@@ -21,11 +21,14 @@ OMP_LINES = ["!$omp parallel do", "!$OMP END PARALLEL DO", "!$omp barrier", "!$o
 
 
 def _split(r, st):
-    """Split a statement's text at a token gap: (head, tail) or None."""
+    """Split a statement's text at 1-3 token gaps: list of chunks (>= 2) or None.  The blank that separates the
+    two tokens at a split goes to the start of the following chunk (fixed form: a chunk must not rely on a
+    trailing blank; see DESIGN 3.5)."""
     toks = [t for _, t in layout.stmt_tokens(st)]
     if len(toks) < 3:
         return None
-    k = r.n(1, len(toks) - 1)
+    ncuts = min(r.n(1, 3), len(toks) - 1)
+    cuts = sorted({r.n(1, len(toks) - 1) for _ in range(ncuts)})
 
     def join(ts):
         out = ""
@@ -34,7 +37,13 @@ def _split(r, st):
                 out += " " if layout.needs_space(ts[i - 1], t) else layout.default_gap(ts[i - 1], t)
             out += t
         return out
-    return join(toks[:k]), join(toks[k:])
+    chunks = []
+    prev = 0
+    for c in cuts + [len(toks)]:
+        gap = " " if prev and layout.needs_space(toks[prev - 1], toks[prev]) else ""
+        chunks.append(gap + join(toks[prev:c]))
+        prev = c
+    return chunks
 
 
 def build(rnd, tier, flags):
@@ -43,77 +52,84 @@ def build(rnd, tier, flags):
     meta = progs.meta_of(flat)
     std = "f2008" if (meta["f08"] or g.o.f08) else r.pick(["f2003", "f2008"])
     fixed = r.chance(40)
-    full, sent, minus, hidden = [], [], [], []
-    cont_used = lab_used = omp = False
+    full, sent, minus, hidden, plain = [], [], [], [], []
+    cont_used = lab_used = omp = multi = inter = False
     first = True
     for st, d in flat:
         hide = st.removable and not first and r.chance(35) and st.role == "simple"
         first = False
         if r.chance(8):
             o = r.pick(OMP_LINES)
+            sent.append(o)                     # '!' in column 1: a comment line in both forms
+            plain.append(o)
             omp = True
-            sent.append(o)                      # '!' in column 1: a comment line in both forms
         if fixed:
             lab = (st.label or "")
             body = ((st.cname + ": ") if st.cname else "") + st.src
             line = lab.ljust(5)[:5] + " " + body
-            full.append(line)
-            if not hide:
-                sent.append(line)
-                minus.append(line)
-                continue
+        else:
+            line = gen.stmt_text(st)
+        full.append(line)
+        if fixed and hide and len(st.label or "") > 3:
+            hide = False
+        if not hide:
+            sent.append(line)
+            minus.append(line)
+            continue
+        chunks = (_split(r, st) if r.chance(45) else None) or None
+        if fixed and st.cname:
+            chunks = None
+        stmt_lines = []      # physical lines of the hidden statement, comments/blank lines interleaved
+        sentinel_lines = []
+        if fixed:
             s = r.pick(["!$", "c$", "C$", "*$"])
-            lab3 = lab.rjust(3) if len(lab) <= 3 else None
-            if lab3 is None:
-                sent.append(line)
-                minus.append(line)
-                continue
-            sp = _split(r, st) if r.chance(40) else None
-            if sp and not st.cname:
-                head, tail = sp
-                l1 = s + lab3 + " " + head
-                l2 = s + "   " + r.pick(["&", "1", "+", "x"]) + tail
-                sent.extend([l1, l2])
-                hidden.extend([l1, l2])
-                cont_used = True
+            lab3 = (st.label or "").rjust(3)
+            if chunks:
+                mark = r.pick(["&", "1", "+", "x"])
+                parts = [s + lab3 + " " + chunks[0]] + [s + "   " + mark + ch for ch in chunks[1:]]
             else:
-                l1 = s + lab3 + " " + body
-                sent.append(l1)
-                hidden.append(l1)
-            if lab:
+                parts = [s + lab3 + " " + ((st.cname + ": ") if st.cname else "") + st.src]
+            comment_pool = ["C plain comment", "", "* star comment", "! bang comment"]
+            if st.label:
                 lab_used = True
         else:
             ind = " " * r.n(0, 6)
-            line = gen.stmt_text(st)
-            full.append(line)
-            if not hide:
-                sent.append(line)
-                minus.append(line)
-                continue
-            sp = _split(r, st) if r.chance(40) else None
             pre = (st.label + " " if st.label else "") + ((st.cname + ": ") if st.cname else "")
-            if sp:
-                head, tail = sp
-                l1 = ind + "!$ " + pre + head + " &"
-                l2 = " " * r.n(0, 6) + r.pick(["!$ & ", "!$& ", "!$ ", "!$  &"]) + tail
-                sent.extend([l1, l2])
-                hidden.extend([l1, l2])
-                cont_used = True
+            if chunks:
+                parts = [ind + "!$ " + pre + chunks[0] + " &"]
+                for k, ch in enumerate(chunks[1:]):
+                    last = k == len(chunks) - 2
+                    parts.append(" " * r.n(0, 6) + r.pick(["!$ & ", "!$& ", "!$ ", "!$  &"]) + ch + ("" if last else " &"))
             else:
-                l1 = ind + "!$ " + line
-                sent.append(l1)
-                hidden.append(l1)
-    meta.update({"fixed": fixed, "cont": cont_used, "labelled_fixed": lab_used and fixed, "omp": omp,
-                 "n_hidden": len(hidden)})
+                parts = [ind + "!$ " + line]
+            comment_pool = ["! plain comment", "", "   ! indented comment"]
+        for k, p in enumerate(parts):
+            if k and r.chance(25):
+                c = r.pick(comment_pool)
+                stmt_lines.append(c)
+                if c.strip():
+                    plain.append(c.strip())
+                inter = True
+            stmt_lines.append(p)
+            sentinel_lines.append(p)
+        if len(parts) > 1:
+            cont_used = True
+        if len(parts) > 2:
+            multi = True
+        sent.extend(stmt_lines)
+        hidden.extend(sentinel_lines)
+    meta.update({"fixed": fixed, "cont": cont_used, "cont3": multi, "comment_in_hidden_cont": inter,
+                 "labelled_fixed": lab_used and fixed, "omp": omp, "n_hidden": len(hidden)})
     case = {"full": "\n".join(full) + "\n", "sent": "\n".join(sent) + "\n", "minus": "\n".join(minus) + "\n",
-            "hidden": hidden, "std": std, "fixed": fixed, "meta": meta}
+            "hidden": hidden, "plain_comments": plain, "std": std, "fixed": fixed, "meta": meta}
     return case, progs.excluded_counts(g)
 
 
 def evaluate(case):
     meta = case.get("meta", {})
     nontrivial = bool((meta.get("cont") or meta.get("labelled_fixed")) and meta.get("omp"))
-    labels = ["fixed" if case["fixed"] else "free"] + [k for k in ("cont", "labelled_fixed", "omp") if meta.get(k)]
+    labels = ["fixed" if case["fixed"] else "free"] + [k for k in ("cont", "cont3", "comment_in_hidden_cont",
+                                                                     "labelled_fixed", "omp") if meta.get(k)]
     if not case["hidden"]:
         labels.append("nothing-hidden")
     std = case["std"]
@@ -134,9 +150,11 @@ def evaluate(case):
     if o_enk.kind != "tree":
         return Result(False, "enabled-kept:reject:%s" % o_enk.kind, nontrivial, labels, {"error": o_enk.text})
     comm = [str(c).strip() for c in walk(o_enk.tree, F03.Comment) if str(c).strip()]
-    if any(not c.lower().startswith("!$omp") for c in comm):
-        bad = [c for c in comm if not c.lower().startswith("!$omp")][0]
-        return Result(False, "enabled-kept:hidden-line-left-as-comment", nontrivial, labels, {"comment": bad})
+    want_plain = list(case.get("plain_comments", []))
+    if comm != want_plain:
+        extra = [c for c in comm if c not in want_plain]
+        return Result(False, "enabled-kept:comments-differ:%s" % ("hidden-line-left-as-comment" if extra else "comment-lost"),
+                      nontrivial, labels, {"got": comm[:8], "expected": want_plain[:8]})
     o_dis = guarded_parse(case["sent"], std=std)
     if o_dis.kind != "tree":
         return Result(False, "disabled:reject:%s" % o_dis.kind, nontrivial, labels, {"error": o_dis.text})
@@ -148,7 +166,10 @@ def evaluate(case):
         return Result(False, "disabled-kept:reject:%s" % o_disk.kind, nontrivial, labels, {"error": o_disk.text})
     comm = [str(c).strip() for c in walk(o_disk.tree, F03.Comment) if str(c).strip()]
     want = [h.strip() for h in case["hidden"]]
-    got_hidden = [c for c in comm if not c.lower().startswith("!$omp")]
+    got_hidden = list(comm)
+    for pc in case.get("plain_comments", []):
+        if pc in got_hidden:
+            got_hidden.remove(pc)
     if got_hidden != want:
         return Result(False, "disabled-kept:comments-differ", nontrivial, labels,
                       {"expected": want[:6], "got": got_hidden[:6]})
